@@ -6,6 +6,7 @@ package main
 
 import (
 	"fmt"
+	"go/ast"
 	"os"
 	"go/constant"
 	"go/token"
@@ -64,6 +65,7 @@ type Exec struct {
 	letSrc  map[string]string
 	axioms  []string // quantified facts about the entry heap (prunable)
 	extra   []string // extra assertions (ground instances) global to this function
+	wrapped []Term // errors bound to %w verbs of the format being interpreted
 	isInit  bool
 	ghostFn bool // defined in a verif-tagged file (ghost client)
 	lenient bool
@@ -548,6 +550,10 @@ func (p *Program) contractName(fn *ssa.Function) string {
 		}
 		return pn + "$" + nm
 	}
+	if fn.Pkg != nil && !p.isOurPkg(fn.Pkg) && fn.Signature.Recv() == nil {
+		// function of a dependency package put under contract: pkgname.Func
+		return fn.Pkg.Pkg.Name() + "." + fn.Name()
+	}
 	if recv := fn.Signature.Recv(); recv != nil {
 		t := recv.Type()
 		if pt, ok := t.(*types.Pointer); ok {
@@ -622,7 +628,9 @@ func (ex *Exec) run() {
 				ex.failObl("subset", "unsupported", string(ue), nil, nil)
 				return
 			}
-			panic(r)
+			// never crash on code outside what the generator was written for:
+			// the function is reported as not verified
+			ex.failObl("subset", "unsupported", fmt.Sprintf("construct the generator cannot process (%v)", r), nil, nil)
 		}
 	}()
 	ex.findLoops()
@@ -971,6 +979,7 @@ func (ex *Exec) atLoopHeader(st *State, li *loopInfo) bool {
 	for _, u := range lc.Unfold {
 		ex.unfoldStep(st, u, &specCtx{mode: "loop"})
 	}
+	ex.assumeUses(st, lc.Uses, &specCtx{mode: "loop", headState: lf.head})
 	for _, inv := range lc.Invariants {
 		g := ex.specBool(st, inv.Expr, &specCtx{mode: "loop"})
 		ex.oblige(st, "inv-preserved", label+"/"+inv.Label, g, inv.Tags, hdrInstr, inv.Src)
@@ -991,6 +1000,37 @@ func (ex *Exec) atLoopHeader(st *State, li *loopInfo) bool {
 	// loop frame: everything outside the declared write set is as before the loop
 	ex.frameObligations(st, lf.pre, ex.loopAssigns(lf.pre, lc), "loop-frame", label, hdrInstr, nil)
 	return false
+}
+
+// assumeUses adds hand-instantiated instances of prelude axiom schemas
+// (bsubSplit, bsubNest, rsegSplit, ...: true facts about byte sequences). An
+// instance that mentions a variable not in scope on this path is skipped.
+func (ex *Exec) assumeUses(st *State, uses []ast.Expr, ctx *specCtx) {
+	for _, u := range uses {
+		schema := false
+		if call, ok := u.(*ast.CallExpr); ok {
+			if id, ok := call.Fun.(*ast.Ident); ok {
+				switch id.Name {
+				case "bsubSplit", "bsubNest", "bsubFull", "rsegSplit":
+					schema = true
+				}
+			}
+		}
+		if !schema {
+			ex.failObl("contract", "use-not-a-schema", "use: only axiom-schema instances (bsubSplit, bsubNest, bsubFull, rsegSplit) may be assumed: "+exprString(u), nil, nil)
+			continue
+		}
+		func() {
+			defer func() {
+				if r := recover(); r != nil {
+					if _, ok := r.(unsupported); !ok {
+						panic(r)
+					}
+				}
+			}()
+			st.assume(ex.specBool(st, u, ctx))
+		}()
+	}
 }
 
 // loopGlobalInvariants: the global invariants are implicit invariants of
@@ -1134,6 +1174,9 @@ func (ex *Exec) atReturn(st *State, ret *ssa.Return) {
 		results = append(results, ex.val(st, r))
 	}
 	ctx := &specCtx{mode: "exit", results: results}
+	if ex.fc != nil {
+		ex.assumeUses(st, ex.fc.Uses, ctx)
+	}
 	if ex.isInit {
 		if !ex.lenient {
 			ex.p.recordInit(ex, st)
